@@ -43,6 +43,15 @@ def cl : Machine where
   minit := {}
   mstep := fun m line out => m.step line out
 
-def machines : List (String × Machine) := [("cmd", cmd), ("sup", sup), ("rf", rf), ("cl", cl)]
+/-- End-to-end rig for agent-sent commands (real agent on the real runtime): monitor only (the model step echoes). -/
+def adh : Machine where
+  σ := Unit
+  init := ()
+  step := fun s _ => (s, "-")
+  μ := CL.AdhMon
+  minit := {}
+  mstep := fun m line out => m.step line out
+
+def machines : List (String × Machine) := [("cmd", cmd), ("sup", sup), ("rf", rf), ("cl", cl), ("adh", adh)]
 
 end SwimVerif.Machines.C14
